@@ -53,10 +53,9 @@ def responseLifetime (g : Glue) (e : Entry) (resCC : Directives) : Int :=
   let date := dateHeader g h
   if resCC.maxAgePresent then (resCC.maxAge).getD 0
   else
-    let es := Header.get h sExpires
-    if es.isEmpty then
+    if !Header.has h sExpires then
       (if isHeuristicStatus e.resp.status || resCC.isPublic then heuristicFreshness g h date else 0)
-    else match timeOf g es with
+    else match timeOf g (Header.get h sExpires) with
       | some t => if t > date then satSub t date else 0
       | none => 0
 
@@ -68,25 +67,34 @@ def maxStaleOf (reqCC : Directives) : Int :=
     | some d => if d ≥ 0 then d else 0
     | none => 0
 
+/-- `usefulLife = min(usefulLife, reqMaxAge)` for a positive request max-age -/
+def requestLifetime (life0 : Int) (reqCC : Directives) : Int :=
+  match reqCC.maxAge with
+  | some m => if m > 0 then min life0 m else life0
+  | none => life0
+
+/-- the min-fresh test -/
+def minFreshStale (reqCC : Directives) (life age : Int) : Bool :=
+  match reqCC.minFresh with
+  | some f => decide (f > 0) && decide (life - age < f)
+  | none => false
+
+/-- `isStale` after the max-stale allowance -/
+def staleAfterMaxStale (resCC : Directives) (age life maxStale : Int) : Bool :=
+  if decide (age ≥ life) && decide (maxStale > 0) && !resCC.mustRevalidate && decide (age < satAdd life maxStale)
+  then false else decide (age ≥ life)
+
 /-- freshnessCalculator.CalculateFreshness -/
 def calculateFreshness (g : Glue) (now : Int) (e : Entry) (reqCC resCC : Directives) : Freshness :=
   if reqCC.maxAge = some 0 then { isStale := true, ageValue := 0, ageTimestamp := now, usefulLife := 0 }
+  else if minFreshStale reqCC (requestLifetime (responseLifetime g e resCC) reqCC) (currentAge g now e) then
+    { isStale := true, ageValue := currentAge g now e, ageTimestamp := now,
+      usefulLife := requestLifetime (responseLifetime g e resCC) reqCC }
   else
-    let age := currentAge g now e
-    let life0 := responseLifetime g e resCC
-    let life := match reqCC.maxAge with
-      | some m => if m > 0 then min life0 m else life0
-      | none => life0
-    let minFreshStale := match reqCC.minFresh with
-      | some f => f > 0 && life - age < f
-      | none => false
-    if minFreshStale then { isStale := true, ageValue := age, ageTimestamp := now, usefulLife := life }
-    else
-      let maxStale := maxStaleOf reqCC
-      let stale0 := age ≥ life
-      let stale := if stale0 && maxStale > 0 && !resCC.mustRevalidate && age < satAdd life maxStale
-                   then false else stale0
-      { isStale := stale, ageValue := age, ageTimestamp := now, usefulLife := life }
+    { isStale := staleAfterMaxStale resCC (currentAge g now e)
+        (requestLifetime (responseLifetime g e resCC) reqCC) (maxStaleOf reqCC),
+      ageValue := currentAge g now e, ageTimestamp := now,
+      usefulLife := requestLifetime (responseLifetime g e resCC) reqCC }
 
 /-- roundtripper.go calculateFreshness: (freshness, request max-age exceeded) -/
 def transportFreshness (g : Glue) (now : Int) (e : Entry) (reqCC resCC : Directives) : Freshness × Bool :=
